@@ -100,6 +100,11 @@ func (r *Run) SetCoq(header string, caseTy string) { r.header, r.caseTy = header
 func (r *Run) NextID() int { r.caseIDs++; return r.caseIDs }
 func (r *Run) AddCase(term string, desc string) {
 	r.cases = append(r.cases, term)
+	// keep descs[i] = description of case id i+1 even when ids were drawn for cases that are not
+	// replayed in Coq (implementation-only streams, inputs too long for a case file)
+	for len(r.descs) < r.caseIDs-1 {
+		r.descs = append(r.descs, "(not replayed in Coq)")
+	}
 	r.descs = append(r.descs, desc)
 	r.caseBytes += len(term)
 	if len(r.cases) >= r.perFile || r.caseBytes > 400000 {
